@@ -24,10 +24,26 @@ type Code struct {
 
 func (Code) TableName() string { return "c16_code" }
 
-const codeSchemaSQL = `CREATE TABLE c16_code (id integer primary key, code text UNIQUE, label text, updated_at datetime)`
+const codeSchemaSQL = `CREATE TABLE c16_code (id integer primary key, code text UNIQUE, label text, updated_at datetime);
+CREATE TABLE c16_pcode (id integer primary key, code text, label text, updated_at datetime, deleted_at datetime);
+CREATE UNIQUE INDEX idx_c16_pcode_live ON c16_pcode(code) WHERE deleted_at IS NULL`
+
+// PCode: the code is unique among live rows only (partial unique index); the
+// conflict target needs OnConflict.TargetWhere to name that index.
+type PCode struct {
+	ID        uint `gorm:"primaryKey"`
+	Code      string
+	Label     string
+	UpdatedAt time.Time
+	DeletedAt gorm.DeletedAt
+}
+
+func (PCode) TableName() string { return "c16_pcode" }
 
 type UCase struct {
-	Unique   bool   `json:"unique_target"` // marks the replay format
+	Unique   bool   `json:"unique_target"`              // marks the replay format
+	Partial  bool   `json:"partial_index,omitempty"`    // c16_pcode + TargetWhere{deleted_at IS NULL}
+	ExDel    bool   `json:"existing_deleted,omitempty"` // the existing row is soft-deleted
 	Existing int    `json:"existing_id"`
 	NewID    int    `json:"new_id"`
 	NewCode  string `json:"new_code"`
@@ -37,13 +53,24 @@ type UCase struct {
 var uRuleName = []string{"OnConflict{code;DoNothing}", "OnConflict{code;UpdateAll}", "OnConflict{code;DoUpdates:AssignmentColumns(label)}"}
 
 func (c UCase) String() string {
+	if c.Partial {
+		del := ""
+		if c.ExDel {
+			del = ",DELETED"
+		}
+		return fmt.Sprintf("table {(%d,\"k\",\"x\"%s),(9,\"m\",\"w\")} unique(code) WHERE deleted_at IS NULL: Clauses(%s + TargetWhere{deleted_at IS NULL}).Create(&PCode{ID:%d,Code:%q,Label:\"y\"})", c.Existing, del, uRuleName[c.Rule], c.NewID, c.NewCode)
+	}
 	return fmt.Sprintf("table {(%d,\"k\",\"x\"),(9,\"m\",\"w\")}: Clauses(%s).Create(&Code{ID:%d,Code:%q,Label:\"y\"})", c.Existing, uRuleName[c.Rule], c.NewID, c.NewCode)
 }
 
-func (w *worker) dumpCodes() string {
+func (w *worker) dumpCodes(partial bool) string {
 	var l []string
 	w.env.Quiet(func() {
-		rows, err := w.env.SQL.Query("SELECT id,code,label FROM c16_code ORDER BY id")
+		q := "SELECT id,code,label,0 FROM c16_code ORDER BY id"
+		if partial {
+			q = "SELECT id,code,label,deleted_at IS NOT NULL FROM c16_pcode ORDER BY id"
+		}
+		rows, err := w.env.SQL.Query(q)
 		if err != nil {
 			l = append(l, "ERROR "+err.Error())
 			return
@@ -52,8 +79,13 @@ func (w *worker) dumpCodes() string {
 		for rows.Next() {
 			var id int
 			var code, label string
-			rows.Scan(&id, &code, &label)
-			l = append(l, fmt.Sprintf("(%d,%q,%q)", id, code, label))
+			var del bool
+			rows.Scan(&id, &code, &label, &del)
+			if del {
+				l = append(l, fmt.Sprintf("(%d,%q,%q,DELETED)", id, code, label))
+			} else {
+				l = append(l, fmt.Sprintf("(%d,%q,%q)", id, code, label))
+			}
 		}
 	})
 	return strings.Join(l, "")
@@ -62,9 +94,19 @@ func (w *worker) dumpCodes() string {
 // runUnique executes one case; returns "" or the failure.
 func (w *worker) runUnique(c UCase) (fail string, conflict bool) {
 	e := w.env
-	e.MustExec("DELETE FROM c16_code")
-	e.MustExec("INSERT INTO c16_code (id,code,label,updated_at) VALUES (?,?,?,?)", c.Existing, "k", "x", seedTime)
-	e.MustExec("INSERT INTO c16_code (id,code,label,updated_at) VALUES (9,'m','w',?)", seedTime)
+	if c.Partial {
+		e.MustExec("DELETE FROM c16_pcode")
+		var del interface{}
+		if c.ExDel {
+			del = seedTime
+		}
+		e.MustExec("INSERT INTO c16_pcode (id,code,label,updated_at,deleted_at) VALUES (?,?,?,?,?)", c.Existing, "k", "x", seedTime, del)
+		e.MustExec("INSERT INTO c16_pcode (id,code,label,updated_at) VALUES (9,'m','w',?)", seedTime)
+	} else {
+		e.MustExec("DELETE FROM c16_code")
+		e.MustExec("INSERT INTO c16_code (id,code,label,updated_at) VALUES (?,?,?,?)", c.Existing, "k", "x", seedTime)
+		e.MustExec("INSERT INTO c16_code (id,code,label,updated_at) VALUES (9,'m','w',?)", seedTime)
+	}
 	var oc clause.OnConflict
 	target := []clause.Column{{Name: "code"}}
 	switch c.Rule {
@@ -75,8 +117,12 @@ func (w *worker) runUnique(c UCase) (fail string, conflict bool) {
 	default:
 		oc = clause.OnConflict{Columns: target, DoUpdates: clause.AssignmentColumns([]string{"label"})}
 	}
-	// reference
-	conflict = c.NewCode == "k"
+	if c.Partial {
+		oc.TargetWhere = clause.Where{Exprs: []clause.Expression{clause.Expr{SQL: "deleted_at IS NULL"}}}
+	}
+	// reference: the rule applies where the target (unique among live rows
+	// for the partial index) conflicts; otherwise the row is inserted
+	conflict = c.NewCode == "k" && !c.ExDel
 	label := "x"
 	extra := ""
 	var wantRA int64 = 1
@@ -93,7 +139,11 @@ func (w *worker) runUnique(c UCase) (fail string, conflict bool) {
 		}
 		extra = fmt.Sprintf("(%d,%q,%q)", id, c.NewCode, "y")
 	}
-	rows := []string{fmt.Sprintf("(%d,%q,%q)", c.Existing, "k", label), `(9,"m","w")`}
+	first := fmt.Sprintf("(%d,%q,%q)", c.Existing, "k", label)
+	if c.ExDel {
+		first = fmt.Sprintf("(%d,%q,%q,DELETED)", c.Existing, "k", label)
+	}
+	rows := []string{first, `(9,"m","w")`}
 	if extra != "" {
 		// keep key order
 		if c.NewID != 0 && c.NewID < c.Existing {
@@ -115,7 +165,11 @@ func (w *worker) runUnique(c UCase) (fail string, conflict bool) {
 				panicMsg = fmt.Sprint(r)
 			}
 		}()
-		tx = e.DB.Clauses(oc).Create(&Code{ID: uint(c.NewID), Code: c.NewCode, Label: "y"})
+		if c.Partial {
+			tx = e.DB.Clauses(oc).Create(&PCode{ID: uint(c.NewID), Code: c.NewCode, Label: "y"})
+		} else {
+			tx = e.DB.Clauses(oc).Create(&Code{ID: uint(c.NewID), Code: c.NewCode, Label: "y"})
+		}
 	}()
 	if panicMsg != "" {
 		return "panic inside gorm\n" + panicMsg, conflict
@@ -123,7 +177,7 @@ func (w *worker) runUnique(c UCase) (fail string, conflict bool) {
 	if l := e.Leaks(); l != "" {
 		return "leaked transaction or connection\n" + l, conflict
 	}
-	got := w.dumpCodes()
+	got := w.dumpCodes(c.Partial)
 	if tx.Error != nil {
 		return "unexpected error\nerr: " + tx.Error.Error(), conflict
 	}
@@ -146,6 +200,8 @@ func uniqueCases() []UCase {
 			for rule := 0; rule < 3; rule++ {
 				for _, code := range []string{"k", "n"} {
 					cs = append(cs, UCase{Unique: true, Existing: ex, NewID: nid, NewCode: code, Rule: rule})
+					cs = append(cs, UCase{Unique: true, Partial: true, Existing: ex, NewID: nid, NewCode: code, Rule: rule})
+					cs = append(cs, UCase{Unique: true, Partial: true, ExDel: true, Existing: ex, NewID: nid, NewCode: code, Rule: rule})
 				}
 			}
 		}
@@ -153,12 +209,17 @@ func uniqueCases() []UCase {
 	return cs
 }
 
-func uniqueEnumeration(run *mc.Run, w *worker) (n, conflicts int) {
+func uniqueEnumeration(run *mc.Run, w *worker) (n, conflicts, partialConflicts, partialHidden int) {
 	for _, c := range uniqueCases() {
 		fail, conflict := w.runUnique(c)
 		n++
 		if conflict {
 			conflicts++
+			if c.Partial {
+				partialConflicts++
+			}
+		} else if c.Partial && c.ExDel && c.NewCode == "k" {
+			partialHidden++ // same code as a soft-deleted row: not a conflict
 		}
 		if fail != "" {
 			p := strings.SplitN(fail, "\n", 2)
